@@ -29,6 +29,6 @@ func init() {
 		Mutant{"C17", "wrap-checksum-header-carries-ec", "gssapi/wrapToken.go",
 			"copy(header[0:], []byte{0x05, 0x04, flags, 0xFF, 0x00, 0x00, 0x00, 0x00})", "copy(header[0:], []byte{0x05, 0x04, flags, 0xFF, 0x00, 0x0c, 0x00, 0x00})", "C17.layout"},
 		Mutant{"C17", "token-id-wrap-0405", "gssapi/wrapToken.go",
-			"return &[2]byte{0x05, 0x04}", "return &[2]byte{0x04, 0x05}", "C17.consts"},
+			"return &[2]byte{0x05, 0x04}", "return &[2]byte{0x04, 0x05}", "C17.layout"},
 	)
 }
